@@ -196,6 +196,9 @@ class Model():
                         f'Asset name {asset.name} is a duplicate'
                         ' and we do not allow duplicates.'
                     )
+        while asset.name in self.asset_names:
+            # The generated name may itself be taken, keep it unique
+            asset.name = asset.name + ':' + str(asset.id)
         self.asset_names.add(asset.name)
 
         # Optional field for extra asset data
